@@ -199,6 +199,11 @@ pub enum Op {
     Symlink(String, String),
     Readlink(String),
     ReadlinkAbs(String),
+    /// persistent handles (slot 0..3): open for write/append, write, flush, drop - each its own step
+    HOpen(u8, bool, String),
+    HWrite(u8, Vec<u8>),
+    HFlush(u8),
+    HDrop(u8),
 }
 
 impl Op {
@@ -254,6 +259,11 @@ impl Op {
             Op::Symlink(..) => "symlink",
             Op::Readlink(..) => "readlink",
             Op::ReadlinkAbs(..) => "readlink_abs",
+            Op::HOpen(_, false, _) => "handle-open-write",
+            Op::HOpen(_, true, _) => "handle-open-append",
+            Op::HWrite(..) => "handle-write",
+            Op::HFlush(..) => "handle-flush",
+            Op::HDrop(..) => "handle-drop",
         }
     }
     /// literal path arguments in call order
@@ -267,7 +277,8 @@ impl Op {
             | AllFiles(p) | Entries(p) | Chmod(p, _) | ChmodB(p, _) | Chown(p, _, _) | ChownB(p, _) | Remove(p) | RemoveAll(p)
             | SetCwd(p) | Readlink(p) | ReadlinkAbs(p) => vec![p.as_str()],
             Copy(a, b) | CopyB(a, b, _) | MoveP(a, b) | Symlink(a, b) => vec![a.as_str(), b.as_str()],
-            Cwd | Root => vec![],
+            HOpen(_, _, p) => vec![p.as_str()],
+            Cwd | Root | HWrite(..) | HFlush(..) | HDrop(..) => vec![],
         }
     }
     pub fn is_mutator(&self) -> bool {
@@ -276,7 +287,7 @@ impl Op {
             self,
             Mkfile(..) | MkfileM(..) | MkdirP(..) | MkdirM(..) | WriteAll(..) | AppendAll(..) | WriteLines(..) | AppendLine(..)
                 | AppendLines(..) | WriteH(..) | AppendH(..) | Chmod(..) | ChmodB(..) | Chown(..) | ChownB(..) | Copy(..)
-                | CopyB(..) | MoveP(..) | Remove(..) | RemoveAll(..) | SetCwd(..) | Symlink(..)
+                | CopyB(..) | MoveP(..) | Remove(..) | RemoveAll(..) | SetCwd(..) | Symlink(..) | HOpen(..) | HWrite(..) | HFlush(..) | HDrop(..)
         )
     }
 }
